@@ -306,9 +306,29 @@ class Evaluator:
             return list(v[1])
         raise Undecided('iteration over a value that is not a concrete sequence: {}'.format(unparse(node)[:60] if isinstance(node, ast.AST) else show(v)))
 
+    @staticmethod
+    def _free_truth(node, st):
+        """Is the assigned value the truthiness of an argument the caller supplies (`bool(labels)`, `not labels`)?  Both outcomes
+        are then possible whatever the option was, so the evaluation goes on with an unknown flag instead of giving up."""
+        val = getattr(node, 'value', None) if isinstance(node, ast.Assign) else None
+        if isinstance(val, ast.UnaryOp) and isinstance(val.op, ast.Not):
+            val = val.operand
+        elif isinstance(val, ast.Call) and isinstance(val.func, ast.Name) and val.func.id == 'bool' and len(val.args) == 1 and not val.keywords \
+                and 'bool' not in st.env:
+            val = val.args[0]
+        else:
+            return False
+        if not isinstance(val, ast.Name):
+            return False
+        cur = st.env.get(val.id)
+        if isinstance(cur, tuple) and len(cur) == 4 and cur[0] == 'choice':
+            # `labels = labels if labels is not None else {}`: on the path where the caller supplied the table it is the caller's
+            return ('param', val.id) in (cur[2], cur[3])
+        return cur == ('param', val.id)
+
     def bind(self, target, v, st, node):
         if isinstance(target, ast.Name):
-            if self.depth == 0 and target.id == getattr(self, 'flag', None) and v[0] != 'const':
+            if self.depth == 0 and target.id == getattr(self, 'flag', None) and v[0] != 'const' and not self._free_truth(node, st):
                 # the option the two evaluations differ in is recomputed into something that is not followed
                 raise Undecided('the `{}` option is rebound to a value that is not followed: {}'.format(target.id, show(v)))
             st.env[target.id] = v
